@@ -21,6 +21,7 @@ import (
 )
 
 type Script struct {
+	defTerm map[string]string // defined name -> its term
 	decls    []string
 	declSet  map[string]bool
 	body     []string
@@ -74,6 +75,18 @@ func (s *Script) Define(hint string, sort string, term string) string {
 	s.body = append(s.body, fmt.Sprintf("(define-fun %s () %s %s)", n, sort, term))
 	// the cache is only valid while the prefix is kept; obligations use prefixes >= this point
 	s.defCache[key] = n
+	if s.defTerm == nil {
+		s.defTerm = map[string]string{}
+	}
+	s.defTerm[n] = term
+	return n
+}
+
+// Expand returns the term a defined name stands for (one level), or the name itself.
+func (s *Script) Expand(n string) string {
+	if t, ok := s.defTerm[n]; ok {
+		return t
+	}
 	return n
 }
 
